@@ -1,6 +1,7 @@
 package gram
 
 import (
+	"fmt"
 	"sort"
 	"strings"
 )
@@ -304,6 +305,19 @@ func L6() []*Grammar {
 		{"id", "tok", Seq(Ref("_letter"), Rep(AltP(Ref("_letter"), Ref("_digit"))))},
 		{"!whitespace", "ign", AltP(Lit(' '), Lit('\t'), Lit('\n'), Lit('\r'))},
 	}})
+	// more than 16 classes in the start state, ranges that begin on the last rune of an existing class
+	{
+		var defs []LexDef
+		for i := 0; i < 10; i++ {
+			defs = append(defs, LexDef{fmt.Sprintf("d%d", i), "tok", Lit(rune('0' + i))})
+		}
+		for i, r := range "+*/()=" {
+			defs = append(defs, LexDef{fmt.Sprintf("p%d", i), "tok", Lit(r)})
+		}
+		defs = append(defs, LexDef{"lo", "tok", Seq(Rng('a', 'm'), Lit('x'))}, LexDef{"hi", "tok", Seq(Rng('m', 'z'), Lit('y'))},
+			LexDef{"nine", "tok", Seq(Rng('9', 'A'), Lit('z'))}, LexDef{"z2", "tok", Seq(Lit('z'), Lit('z'))})
+		gs = append(gs, &Grammar{Lex: defs})
+	}
 	// keywords as string literals vs identifiers
 	gs = append(gs, &Grammar{
 		Lex:  []LexDef{{"id", "tok", Seq(Rng('a', 'z'), Rep(Rng('a', 'z')))}, {"!ws", "ign", Lit(' ')}},
